@@ -4,5 +4,5 @@ CONSTANTS
   MaxResends = 2
   MaxRefresh = 2
   HookBeforeQuitCheck = TRUE
-INVARIANTS Conserved NeverAhead StoppedDrains
+INVARIANTS Conserved NeverAhead QuitProgress StoppedQuiescent
 CHECK_DEADLOCK FALSE
